@@ -12,6 +12,8 @@ def entries():
         E.append((name, unwind, call, desc, bound))
     add("lemma_utf8_ok_4", 6, "lemma_utf8_ok::<4,_>(src)", "model lemma: vrt::utf8_ok == std::str::from_utf8(..).is_ok()",
         {"input_bytes": "<=4, every byte string"})
+    add("lemma_count_chars_3", 6, "lemma_count_chars::<3,_>(src)", "model lemma: vrt::count_chars_model == Chars::count (run without the stub)",
+        {"input_bytes": "<=3, every UTF-8 string"})
     for n in range(0, 6):
         add(f"c11_len{n}", n + 3, f"c11_pretty::<{n},_>(src)",
             "PrettyParseError::from_parse_error: line index, column index and printed line for every text of "
